@@ -21,7 +21,8 @@ COUNTERS = [
     (P + 'index/position_index.py', 'PositionIndex.build', 'pos', 'tokenize(', False),
     (P + 'filter/position_filter.py', 'PositionFilter.find_candidates', 'probe_pos', 'probe_tokens', False),
     (P + 'filter/position_filter.py', 'PositionFilter.filter_pair', 'r_pos', 'rstring', False),
-    # (the rank counter and the table position of the token-ordering generators are decided by R-ORDER/rank, /count)
+    # (the rank counter of the token-ordering generators is decided by R-ORDER/rank)
+    (TOKORD, 'gen_token_ordering_for_tables', 'table_index', 'table_list', False),
 ]
 
 
@@ -329,6 +330,48 @@ def check_row_caches(ctx):
                       '`%s` is indexed by row id elsewhere but %s: entries shift against the row ids' % (lst, bad), lp,
                       sample='%s: one entry per row on all %d iteration paths' % (lst, len(info)))
     ctx.floor('R-ONCE/row-cache', n, 3, 'row caches')
+    _check_postings(ctx)
+
+
+def _check_postings(ctx):
+    """a posting list is created only when the key has none yet, and a cache that depends on a flag is filled when
+    the flag is on"""
+    from ..guards import Conds, Universe, to_formula, literals, show
+    from .common import parse_expr
+    repo = ctx.repo
+    n = 0
+    for cls, (fpath, ipath, icls) in sorted(FILTERS.items()):
+        if icls is None:
+            continue
+        b = repo.fn(ipath, icls + '.build')
+        conds = Conds(b.node, None)
+        for st in walk_own(b.node):
+            # self.index[K] = []  (an empty list / new container)
+            if isinstance(st, ast.Assign) and isinstance(st.targets[0], ast.Subscript) and U(st.targets[0].value) == 'self.index' \
+                    and isinstance(st.value, (ast.List, ast.Call)) and not getattr(st.value, 'elts', None):
+                n += 1
+                k = U(st.targets[0].slice)
+                c = conds.of(st)
+                absent = [to_formula(parse_expr(x)) for x in ('self.index.get(%s) is None' % k, '%s not in self.index' % k,
+                                                              'not self.index.get(%s)' % k)]
+                ok = any(Universe().implies(c, a) is None for a in absent)
+                ctx.check('R-ONCE/posting', b, 'create posting list for %s' % k, ok,
+                          '`%s` runs under `%s`: the posting list of a key that already has one is thrown away, earlier rows '
+                          'are lost from the index' % (U(st)[:50], show(c)[:100]), st, sample='created only when absent')
+        # caches filled under a flag: the flag must be on
+        for x in walk_own(b.node):
+            if isinstance(x, ast.Expr) and isinstance(x.value, ast.Call) and isinstance(x.value.func, ast.Attribute) \
+                    and x.value.func.attr == 'append':
+                recv = U(x.value.func.value)
+                c = conds.of(x)
+                for _, e, pol in literals(c):
+                    t = U(e)
+                    if ('cache' in t and 'empty' not in t and isinstance(e, (ast.Name, ast.Attribute))) and 'cache' in recv.replace('self.', '') \
+                            or (t.startswith('cache_') and 'empty' not in t and 'empty' not in recv and ('cache' in recv or 'token' in recv)):
+                        ctx.check('R-ONCE/posting', b, 'cache %s under %s' % (recv, t), pol,
+                                  '`%s` is filled when `%s` is false: a caller that asks for the cache gets none' % (recv, t), x,
+                                  sample='filled when the flag is on')
+    # (setdefault / defaultdict forms create nothing explicitly: no floor)
 
 
 def check_extrema(ctx):
